@@ -53,6 +53,9 @@ impl ValueChain {
     fn push_value_mut(&mut self, value: Value) -> &mut Value {
         // note: There is no need for keeping the old chain.
         // All those references are out of scope when add_mut is called.
+        // The old chain is released through `Drop for ValueChain`, which is iterative:
+        // assigning to `self.root` would free it node by node, recursively.
+        drop(core::mem::take(self));
         self.root = Node::new(value).into();
 
         &mut self.root.get_mut().unwrap().value
